@@ -348,6 +348,14 @@ pub fn check_case(l: &mut Local, case: &Case) {
                     );
                 }
             } else {
+                // an inequality that holds on the whole box is moved whatever the limit says: no slack is needed
+                if linear_distinct && !ihi.is_positive() && robust_neg {
+                    l.violation(
+                        &format!("{sig0}/always-satisfied-not-moved"),
+                        || json!(case),
+                        format!("the linear inequality holds on the whole box (interval upper bound <= 0) but the call failed with '{e}' instead of moving it to the removed constraints"),
+                    );
+                }
                 // must be the slack-range limit (convert only)
                 let range_needed = -ilo.clone();
                 if normalised && (case.method == "add_slack" || range_needed <= qi(case.param as i64)) {
